@@ -1584,7 +1584,13 @@ def gen():
     for p in ps:
         if p["emits"]:
             j = p["iface"]
-            o.append("        (%d, %d) => { let r = server.object_server().interface::<_, I%d>(path).await?; let g = r.get().await; g.%s_changed(r.signal_emitter()).await }\n" % (j, p["idx"], j, p["name"].lower() if p["named"] else p["rust"]))
+            if p["named"]:
+                # the name of the generated `<prop>_changed` helper is derived from the D-Bus name,
+                # i.e. from behaviour under test: emit by hand so that the harness compiles
+                # whatever the macro makes of explicit names
+                o.append("        (%d, %d) => { let r = server.object_server().interface::<_, I%d>(path).await?; let g = r.get().await; let v = zbus::zvariant::Value::from(g.%s()%s); let mut m = std::collections::HashMap::new(); m.insert(%s, v); zbus::fdo::Properties::properties_changed(r.signal_emitter(), zbus::names::InterfaceName::from_static_str_unchecked(\"x.bank.I%d\"), m, std::borrow::Cow::Borrowed(&[])).await }\n" % (j, p["idx"], j, p["rust"], ".await" if p["async_get"] else "", rust_str(p["name"]), j))
+            else:
+                o.append("        (%d, %d) => { let r = server.object_server().interface::<_, I%d>(path).await?; let g = r.get().await; g.%s_changed(r.signal_emitter()).await }\n" % (j, p["idx"], j, p["rust"]))
     o.append('        _ => panic!("bank: property does not emit"),\n    }\n}\n')
     return "".join(o)
 
